@@ -187,6 +187,8 @@ def run(chk):
     rng = random.Random(chk.seed)
     chk.design("OrderedCoveringDesign", "OrderedCoveringDesign_%s.cfg" % chk.tier,
                expect_actions=("MergeAny", "DropDefaults", "AddEntry", "Start"))
+    if not chk.quick:
+        chk.design("OrderedCoveringDesign", "OrderedCoveringDesign_w2l4.cfg", label="2 key bits, tables of <= 4 entries")
     traces = []
     # the empty table, every method and target
     traces.append(run_methods([], 3, rng, chk))
@@ -195,8 +197,8 @@ def run(chk):
         traces.append(run_methods(t, w, rng, chk, stepped=len(t) > 2))
         chk._nontrivial.add(str(traces[-1]["orig"]))
     # random larger tables
-    for i in range(chk.pick(320, 20000)):
-        w = rng.choice((4, 4, 5, 5, 6, 6, 7, 8) if not chk.quick else (4, 4, 5, 5, 6, 6, 7)) if rng.random() < 0.97 else rng.choice((9, 10))
+    for i in range(chk.pick(240, 20000)):
+        w = rng.choice((4, 4, 5, 5, 6, 6, 7, 8) if not chk.quick else (4, 4, 5, 5, 5, 6, 6)) if rng.random() < (0.99 if chk.quick else 0.97) else rng.choice((8, 9, 10))
         n = rng.randint(2, min(40, 2 ** w))
         t = random_table(rng, w, n, ordered_overlapping=rng.random() < 0.5)
         traces.append(run_methods(t, w, rng, chk))
